@@ -218,7 +218,11 @@ def apply_op(gfapy, gfa, op, version):
         o = find_instance(gfa, op["text"], version)
         if o is None:
             o = gfapy.Line(op["text"], version=version) if version else gfapy.Line(op["text"])
-        o.disconnect()
+            o.disconnect()
+        elif len(op["text"]) % 2 == 0:
+            gfa.rm(o)              # removal by instance through the Gfa ...
+        else:
+            o.disconnect()         # ... or through the line itself
     elif k in ("settag", "deltag"):
         o = find_named(gfa, op["id"])
         if o is None or o.virtual:
